@@ -76,10 +76,12 @@ Definition agree_votes (c : list ballot * assertion * list bool * list bool) : b
 Definition show_votes (c : list ballot * assertion * list bool * list bool) :=
   match c with (bs, a, _, _) => (map (vote_w a) bs, map (vote_l a) bs) end.
 
-(* difficulty functions: (winner tally, loser tally, total, bp_estimate float, cp_estimate float) *)
-Definition agree_est (c : nat * nat * nat * Q * Q) : bool :=
+(* difficulty functions: (winner tally, loser tally, total, bp_estimate, cp_estimate); the two doubles are given
+   exactly as mantissa * 2^exponent *)
+Definition fl (m e : Z) : Q := (inject_Z m * Qpower 2 e)%Q.
+Definition agree_est (c : nat * nat * nat * Z * Z * Z * Z) : bool :=
   match c with
-  | (w, l, tot, b, cp) => close_q (bp_q w l tot) b && close_q (cp_q w l tot) cp
+  | (w, l, tot, bm, be, cm, ce) => close_q (bp_q w l tot) (fl bm be) && close_q (cp_q w l tot) (fl cm ce)
   end.
-Definition show_est (c : nat * nat * nat * Q * Q) :=
-  match c with (w, l, tot, _, _) => (bp_q w l tot, cp_q w l tot) end.
+Definition show_est (c : nat * nat * nat * Z * Z * Z * Z) :=
+  match c with (w, l, tot, _, _, _, _) => (bp_q w l tot, cp_q w l tot) end.
